@@ -464,6 +464,8 @@ def gen_value(rng, f, tmp="/nonexistent", p_wrong=0.15):
             d[key] = gen_value(rng, vf, tmp, 0.08)
         return d
     v = rng.choice(scalar_pool(f))
+    if isinstance(v, str) and not in_alphabet(v) and rng.random() < 0.85:
+        v = rng.choice([x for x in scalar_pool(f) if not isinstance(x, str) or in_alphabet(x)])
     if isinstance(v, str) and "@TMP" in v:
         v = v.replace("@TMP", tmp)
     if k == "challenge" and rng.random() < 0.2:
